@@ -19,6 +19,20 @@ CHECKS = {
              'ctypes), libc gmtime / CPython datetime calendar arithmetic, PyArg_ParseTuple glue.',
         technique='symbolic execution of LLVM IR to SMT (z3 Int/NIA with Euclid variables; per-rate LIA twins; IEEE RNE as LIA)',
         design_ref='DESIGN.md section 4 C03'),
+    'C04': dict(
+        level='model_checking',
+        text='Symbolic execution of the real IR of digital_rf_get_subdir_file (time kernels replaced by their specifications only after those '
+             'are re-proved on the same IR in the same run) with rate numerator/denominator, both cadences, start index and sample index ALL '
+             'symbolic: z3 shows, by division-free characterisations of exact rational time, that the calendar second handed to gmtime and the '
+             'S.mmm of the basename are the cadence-aligned floors of the exact sample time, that samples_left / max_samples_this_file delimit '
+             'exactly the samples whose exact time lies in the file window, that the error return is unreachable and nothing wraps. Complete '
+             'linear twins per (rate, cadence) configuration (incl. rates >= 1e9 Hz with 1 ms files) back the NIA queries. The cadence rule is '
+             'decided on both constructors (C: IR execution with float instructions havoc; Python: guard conditions read from the AST, '
+             'equivalence by z3).',
+        note='Trusted: z3, vlib/llsym.py IR semantics, gmtime injectivity/calendar, snprintf model driven by the format constants in the IR. '
+             'Witnesses incl. first/last sample of a file and seeded boundary cases are replayed on the real build through ctypes.',
+        technique='symbolic execution of LLVM IR to SMT (z3 NIA/LIA, Euclid variables, compositional summaries) + AST-to-SMT for the Python guard',
+        design_ref='DESIGN.md section 4 C04'),
 }
 
 NOT_YET = 'check not built yet in this revision of /verif (planned, see DESIGN.md section 4)'
